@@ -335,9 +335,9 @@ class Ctx:
                 rep = {}
         if rc != 0:
             self.log(f"harness {test} exited {rc}")
-            print(o[-5000:])
+            print(o if len(o) <= 9000 else o[:3500] + "\n[...]\n" + o[-5000:])
             rep.setdefault("crashed", True)
-            rep["crash_output"] = o[-5000:]
+            rep["crash_output"] = o if len(o) <= 9000 else o[:3500] + "\n[...]\n" + o[-5000:]
         if "no tests to run" in o:
             self.broken.append(f"harness-missing:{test}")
         return base + ".ops", base + ".impl", rep
